@@ -30,6 +30,10 @@ def corpus(wd, rng, tag, rows):
     # overflowing rows with a blob in a WITHOUT ROWID table, read through a secondary index
     c.execute("CREATE TABLE wb(k INTEGER, n INTEGER, body BLOB, PRIMARY KEY(k, n)) WITHOUT ROWID")
     c.execute("CREATE INDEX wb_n ON wb(n)")
+    # wide tables: CREATE TABLE texts of several kB (tokenizer / parser buffers of another size class than the short ones)
+    for wname in ("wide", "wide2"):
+        c.execute("CREATE TABLE %s(%s, PRIMARY KEY(%s_c3, %s_c1))" % (wname, ", ".join("%s_c%d %s" % (wname, j, ["INTEGER", "TEXT COLLATE NOCASE", "REAL DEFAULT 1.5", "BLOB", "TEXT DEFAULT 'a  b'"][j % 5]) for j in range(110)), wname, wname))
+        c.execute("INSERT INTO %s(%s_c1, %s_c3) VALUES('x', x'00')" % (wname, wname, wname))
     c.execute("BEGIN")
     for i in range(60):
         c.execute("INSERT INTO uq VALUES(?,?,?,?)", (i, "b%d" % i, -i, i % 7))
@@ -59,6 +63,15 @@ def native_ops(rng, n, rows):
     ops += first
     for _ in range(n):
         k = rng.randrange(15)
+        if k == 12 and rng.random() < .5:
+            # the parser and the schema code on long and on broken statements, next to everything else
+            texts = ["CREATE TABLE foo", "SELECT a FROM", "CREATE INDEX x ON", "CREATE TABLE w(%s)" % ", ".join("c%d TEXT DEFAULT '%d  %d'" % (j, j, rng.randrange(9)) for j in range(150)),
+                     "CREATE TABLE v(%s, PRIMARY KEY(k3 COLLATE nocase)) WITHOUT ROWID" % ", ".join("k%d INTEGER" % j for j in range(200)), "CREATE TABLE s(a, b)"]
+            ops.append(["parse", rng.choice(texts).encode().hex()])
+            ops.append([rng.choice(["columns", "select"]), rng.choice(["wide", "wide2"])] + (["*"] if ops[-1][0] == "parse" and False else []))
+            if ops[-1][0] == "select":
+                ops[-1].append("*")
+            continue
         if k == 12:
             ops.append(["iselecteq", "uq", "uq_d", "i%d" % rng.randrange(8), "a,d"])
             continue
